@@ -468,8 +468,39 @@ def rule_memo(ctx, rid='C20.pure'):
     ctx.require(n >= 1200, rid, f'only {n} functions of sc3.synth analysed')
 
 
+def rule_mutable_defaults(ctx):
+    ctx.rule('C20.pure', 'no function of sc3.synth keeps a mutable default argument: a default list/dict/set is one object for the whole '
+                         'process; stored on an object or written to, it carries what one definition put there into every later build')
+    n = 0
+    for fi in sorted(ctx.repo.functions.values(), key=lambda f: f.fq):
+        if not fi.module.name.startswith('sc3.synth'):
+            continue
+        a = fi.node.args
+        pos = a.posonlyargs + a.args
+        pairs = list(zip(pos[len(pos) - len(a.defaults):], a.defaults)) + [(k, d) for k, d in zip(a.kwonlyargs, a.kw_defaults) if d is not None]
+        for arg, d in pairs:
+            mutable = isinstance(d, (ast.List, ast.Dict, ast.Set)) or (isinstance(d, ast.Call) and norm(d.func) in ('list', 'dict', 'set'))
+            if not mutable:
+                continue
+            n += 1
+            pn = arg.arg
+            kept = [norm(x)[:60] for x in walk_local(fi.node) if isinstance(x, ast.Assign)
+                    and any(isinstance(t, (ast.Attribute, ast.Subscript)) for t in x.targets) and pn in U.names_in(x.value)
+                    and not (isinstance(x.value, ast.BoolOp) and isinstance(x.value.op, ast.Or) and isinstance(x.value.values[0], ast.Name)
+                             and x.value.values[0].id == pn)]      # `p or fresh()`: an empty default is falsy and never the one stored
+            kept += [norm(c)[:60] for c in U.calls(fi.node) if isinstance(c.func, ast.Attribute) and isinstance(c.func.value, ast.Name)
+                     and c.func.value.id == pn and c.func.attr in ('append', 'extend', 'update', 'setdefault', 'add', 'insert', 'pop', 'clear')]
+            kept += [norm(x)[:60] for x in walk_local(fi.node) if isinstance(x, (ast.Assign, ast.AugAssign))
+                     for t in (x.targets if isinstance(x, ast.Assign) else [x.target])
+                     if isinstance(t, ast.Subscript) and isinstance(t.value, ast.Name) and t.value.id == pn]
+            ctx.ob('C20.pure', f'{fi.fq}:{pn}:default-not-shared', not kept,
+                   f'parameter {pn} of {fi.qualname} defaults to one process-wide {norm(d)} and is stored or written ({kept[:2]}): every call '
+                   f'without the argument shares it, later builds read what earlier ones left', fi.node, fi.module)
+
+
 def run(ctx):
     rule_args(ctx)
+    rule_mutable_defaults(ctx)
     rule_memo(ctx)
     rule_param_objects(ctx)
     rule_file(ctx)
@@ -484,6 +515,9 @@ def run(ctx):
 
 
 MUTANTS = [
+    dict(rule='C20.pure', name='metadata and variants default to one shared dict that is kept on the definition (seed C20-m)', file='sc3/synth/synthdef.py',
+         edits=[('sc3/synth/synthdef.py', "                 variants=None, metadata=None):", "                 variants={}, metadata={}):"),
+                ('sc3/synth/synthdef.py', "        self._metadata = metadata or dict()", "        self._metadata = metadata if metadata is not None else dict()")]),
     dict(rule='C20.pure', name='signature of the graph function memoised per function object (seed C04-j)', file='sc3/synth/synthdef.py',
          old="class MetaSynthDef(type):\n", new="import functools\n\n\n@functools.lru_cache(maxsize=1024)\ndef _signature(func):\n    return inspect.signature(func)\n\n\nclass MetaSynthDef(type):\n"),
     dict(rule='C20.ctx', name='(fix reverted) metadata dumped into the open file after the old one was removed', file='sc3/synth/synthdesc.py',
